@@ -46,12 +46,15 @@ NoSchemaChange(st) == st.err = "nil" /\ st.ddl = <<>>
 \* re-create indexes): that is the dialect's way of "adding what is missing" and is admitted for
 \* added fields that carry a check constraint; the data rule below still applies.
 HasCheck(f) == \E i \in DOMAIN f.tags : Len(f.tags[i]) >= 6 /\ SubSeq(f.tags[i], 1, 6) = "check:"
-RebuildAllowed(e) == \E i \in DOMAIN e.added : HasCheck(e.added[i])
+\* (the same holds for a foreign key constraint an added relation brings, unless constraints are disabled)
+RebuildAllowed(e) == (\E i \in DOMAIN e.added : HasCheck(e.added[i])) \/ e.fk
+RelTables(e) == {e.reltables[i] : i \in DOMAIN e.reltables}
 OnlyAdditions(e, st) ==
   /\ st.err = "nil"
   /\ \A i \in DOMAIN st.ddl :
         \/ (st.ddl[i].kind = "add_column" /\ st.ddl[i].object \in AddedCols(e))
         \/ st.ddl[i].kind = "create_index"
+        \/ (st.ddl[i].kind = "create_table" /\ st.ddl[i].object \in RelTables(e))     \* tables the added relations refer to
         \/ (RebuildAllowed(e) /\ st.ddl[i].kind \in {"create_table", "dml", "drop", "alter_table"})
   /\ \A c \in AddedCols(e) : \E i \in DOMAIN st.ddl : st.ddl[i].kind = "add_column" /\ st.ddl[i].object = c
 DataKept(e) == /\ StepOf(e, "m1again").dump = StepOf(e, "insert").dump
